@@ -158,7 +158,7 @@ def make_fragment(seq, track_id, decode_time, sample_durs, sample_sizes, payload
 def make_file(*, kind='video', timescale=1000, durations=(2000, 3000, 2500, 1500, 4000), start_time=0,
               tfdt='v1', styp=False, sidx=False, base='moof', samples_per_seg=2, encrypted=False, iv_size=8,
               subsamples=False, file_id=1, track_id=1, start_number=1, sample_size=40,
-              per_sample_saiz=False, extra_kids=(), dur_from='trun', trex_duration=None, kid=None, free_pad=0) -> bytes:
+              per_sample_saiz=False, extra_kids=(), dur_from='trun', trex_duration=None, kid=None, free_pad=0, trailer=False) -> bytes:
     moof_pssh = None
     if extra_kids:
         moof_pssh = fullbox(b'pssh', 1, 0, COMMON_SYSTEM_ID + struct.pack('>I', len(extra_kids)) +
@@ -178,6 +178,10 @@ def make_file(*, kind='video', timescale=1000, durations=(2000, 3000, 2500, 1500
                              per_sample_saiz=per_sample_saiz, moof_pssh=moof_pssh if i == 0 else None, dur_from=dur_from, free_pad=free_pad)
         out += frag
         t += d
+    if trailer:
+        # a movie fragment random access box after the last fragment: part of the file, of no segment
+        mfro = fullbox(b'mfro', 0, 0, struct.pack('>I', 8 + 16))
+        out += box(b'mfra', mfro)
     return bytes(out)
 
 
@@ -246,7 +250,7 @@ RECIPES = {
     'syntrk': {
         'syntrk_v1': dict(kind='video', timescale=1000, track_id=3, durations=(2000, 3000, 2000, 3000), file_id=17, free_pad=24),
         'syntrk_a1': dict(kind='audio', timescale=48000, track_id=5, durations=(96000, 144000, 96000, 144000), file_id=18,
-                          free_pad=8),
+                          free_pad=8, trailer=True),
     },
     # a track with two key ids: the tenc default and a second one named by a pssh box in the first fragment
     'synmk': {
